@@ -98,8 +98,9 @@ def _make_inverse(c):
         inv = t.inv if c.get("api") == "inv" else t.inverse(link=c["link"], update_buffers=c["ub"])
         if c["when"] == "after":
             _edit_in_place(t)
-        t.update()
-        inv.update()
+        if not c.get("direct"):
+            t.update()
+            inv.update()
     return t, inv, g
 
 
@@ -210,8 +211,12 @@ def gen_inv_forward(rng: random.Random, tier: str):
                 for ch in spec["affine_model"].replace(" o ", ""):
                     name, mc = LETTER[ch]
                     spec["values"][name] = linear_values(rng, mc, d, 1, "tensor", small=(mc != "Translation"))
-        yield {"spec": spec, "grid": tgrid_spec(rng, d, ac=ac, max_size=6), "link": False, "ub": rng.random() < 0.5,
-               "when": "before", "points": cube_points(rng, d, 5, 0.9), "index": rng.randrange(2)}
+        ub = rng.random() < 0.5
+        # direct: inverse(update_buffers=True) must be usable straight away through forward(), i.e. WITHOUT update() and
+        # without the pre-forward hook of __call__ having refreshed its buffers (every class, composites included)
+        yield {"spec": spec, "grid": tgrid_spec(rng, d, ac=ac, max_size=6), "link": False, "ub": ub,
+               "when": "before", "points": cube_points(rng, d, 5, 0.9), "index": rng.randrange(2),
+               "direct": ub and rng.random() < 0.6}
 
 
 def impl_inv_forward(c):
@@ -219,7 +224,7 @@ def impl_inv_forward(c):
     n = batch_size(t)
     p = torch.tensor(c["points"], dtype=torch.float32).unsqueeze(0)
     with torch.no_grad():
-        y = inv(p)
+        y = inv.forward(p) if c.get("direct") else inv(p)
     return proto.flat(y[(c["index"] % n) if y.shape[0] > 1 else 0])
 
 
@@ -491,6 +496,43 @@ def check_svf(c):
     return None
 
 
+# ---------------------------------------------------------------- oracle: update_buffers=True == update() afterwards
+def gen_ub_direct(rng: random.Random, tier: str):
+    n = 0
+    for c in gen_inv_forward(rng, "thorough"):
+        if c["spec"]["cls"] in ("Sequential", "Generic") or "Velocity" in c["spec"]["cls"]:
+            c = dict(c, ub=True, direct=True, link=rng.random() < 0.3)
+            yield c
+            n += 1
+            if n >= _n(tier, 40, 400, 80):
+                return
+
+
+def check_ub_direct(c):
+    """inverse(link, update_buffers=True) is usable straight away: its forward()/disp() — evaluated without update() and
+    without the pre-forward hook — equal those of inverse(link, update_buffers=False) followed by update()"""
+    g = gen.make_grid(c["grid"])
+    p = torch.tensor(c["points"], dtype=torch.float32).unsqueeze(0)
+    outs = []
+    for ub in (True, False):
+        t = build(c["spec"], g)
+        with torch.no_grad():
+            t.update()
+            try:
+                inv = t.inverse(link=c["link"], update_buffers=ub)
+            except (NotImplementedError, TypeError):
+                return None
+            if not ub:
+                inv.update()
+            outs.append(inv.forward(p))
+    e = float((outs[0] - outs[1]).abs().max())
+    if e > 1e-5:
+        name = c["spec"]["cls"] + (":" + c["spec"]["transform"].replace(" ", "") if c["spec"]["cls"] == "Generic" else "")
+        return (f"C07:{name}:inverse:update_buffers-direct", f"inverse(link={c['link']}, update_buffers=True).forward(x) differs by "
+                f"{e:.3e} (cube units) from inverse(update_buffers=False) + update()")
+    return None
+
+
 ORACLES = [
     Oracle("linear_inverse", gen_linear_inverse, check_linear_inverse,
            doc="7 linear classes, 5 named composites, random Sequentials, affine Generic x D x params kind {Parameter, tensor, "
@@ -502,15 +544,20 @@ ORACLES = [
     Oracle("svf_inverse", gen_svf, check_svf,
            doc="SVF / SVFFD on smooth band-limited fields, amplitude 0.25-2 voxels, steps 4-6, link x update_buffers x "
                "{before, after}: interior round-trip error <= 0.1*amp^2 + 2e-3 voxels (exploration; measured constant in NOTES_C07)"),
+    Oracle("ub_direct", gen_ub_direct, check_ub_direct,
+           doc="inverse(link, update_buffers=True) of SVF / SVFFD / Sequential / Generic transforms evaluated through forward() "
+               "without update() or the pre-forward hook = inverse(update_buffers=False) followed by update()"),
 ]
 
 
 def search_cases(disagreements: List[dict]):
-    extra = {"linear_inverse": []}
+    extra = {"linear_inverse": [], "ub_direct": []}
     for dsg in disagreements[:40]:
         c = dsg["case"]
         if "spec" not in c:
             continue
+        if "points" in c and isinstance(c.get("points"), list) and c.get("ub"):
+            extra["ub_direct"].append(dict(c, ub=True, direct=True, link=bool(c.get("link"))))
         d = len(c["grid"]["size"])
         for when in ("before", "after"):
             extra["linear_inverse"].append({"spec": c["spec"], "grid": c["grid"], "link": c.get("link", False),
